@@ -582,6 +582,10 @@ impl UdpSocket {
             .next()
             .ok_or_else(|| io::Error::new(io::ErrorKind::InvalidInput, "could not resolve to any address"))?;
         let mut g = self.st.lock().unwrap();
+        // an AF_INET socket cannot be connected to an IPv6 address (a dual-stack AF_INET6 socket can be to an IPv4 one)
+        if g.local.is_ipv4() && matches!(a, SocketAddr::V6(v6) if v6.ip().to_ipv4_mapped().is_none()) {
+            return Err(io::Error::from_raw_os_error(libc::EAFNOSUPPORT));
+        }
         g.connected = Some(a);
         // datagrams from other peers that were already queued are discarded like the kernel
         // does for a connected socket? (Linux keeps them.) Keep them.
